@@ -15,6 +15,10 @@ R13b  every queueing site of the discard queue is reached exactly when the (new)
 R13c  every site that clears a liveness flag (discard or emission) is followed, on every path of the iteration, by a loop over
       boost::out_edges of that same vertex in which the degree entry of the neighbour is decremented exactly once, exactly when the
       neighbour is live; the three sibling copies of that loop must all have this shape
+R13e  the emission loop keeps running while the heap holds >= 3 entries (abstract evaluation of the loop condition); fewer than three live
+      vertices of degree >= 2 cannot exist in a simple graph, so `size() >= 3` is as good as `!empty()`
+R13f  no return between the initial clean-up and the emission loop; a return guarded by a comparison of a pop counter with the number
+      of vertices is a violation (a vertex can be queued twice), any other early return is undecided
 R13d  the emitted vertex is the top of the heap and its liveness flag is cleared on every path after the emission (otherwise it is
       "removed" again when a neighbour goes: heap handles of popped elements are decreased - observed as a crash)
       Deliberately NOT rules, because no execution shows a failure when they are broken (300 000 random graphs each): the liveness
@@ -503,10 +507,91 @@ def check(rep, prog, fn):
     for (n, v) in trues:
         if init is not None and not init.is_ancestor_of(n):
             rep.undecided('R13d', n, fn, 'liveness is only ever set in the initialisation', 'a vertex is made live again after the initialisation: outside the idiom table')
+    # ------------------------------------------------------------------ R13e: the emission loop runs while anything can still lie on a cycle
+    for (n, v) in emits:
+        main = n.enclosing(*LOOPS)
+        whate = 'the emission loop keeps running while the heap holds three or more entries (every vertex that is not discarded must be emitted)'
+        if main is None or main.cond is None:
+            rep.undecided('R13e', n, fn, whate, 'emission is not inside a loop with a condition')
+            continue
+
+        def size_leaf(leaf):
+            s_ = leaf.strip_all()
+            if s_.k == 'CXXMemberCallExpr' and s_.callee and s_.callee['name'] == 'empty' and ex.var_of(s_.object_arg()) == m.heap:
+                return lambda sz: sz == 0
+            if s_.k == 'BinaryOperator' and s_.op in ('<', '<=', '>', '>=', '==', '!='):
+                l, r, op = s_.c[0].strip_all(), s_.c[1].strip_all(), s_.op
+                if r.k == 'CXXMemberCallExpr':
+                    l, r = r, l
+                    op = {'<': '>', '>': '<', '<=': '>=', '>=': '<='}.get(op, op)
+                if l.k == 'CXXMemberCallExpr' and l.callee and l.callee['name'] == 'size' and ex.var_of(l.object_arg()) == m.heap and r.cv is not None:
+                    import operator
+                    f_ = {'<': operator.lt, '<=': operator.le, '>': operator.gt, '>=': operator.ge, '==': operator.eq, '!=': operator.ne}[op]
+                    c_ = r.cv
+                    return lambda sz: f_(sz, c_)
+            return None
+        leaves = {}
+
+        def atomize(leaf):
+            t_ = size_leaf(leaf)
+            if t_ is not None:
+                leaves[('sz', leaf.i)] = t_
+                return ex.f_atom(('sz', leaf.i))
+            return None
+        f = ex.formula(main.cond, atomize)
+        if f is None or not leaves:
+            rep.undecided('R13e', main, fn, whate, 'loop condition `%s` is not a test of the heap size' % main.cond.text(40))
+            continue
+        bad = None
+        for sz in (3, 4, 7, 50):
+            if not ex.f_eval(f, {a: bool(t_(sz)) for a, t_ in leaves.items()}):
+                bad = sz
+                break
+        if bad is not None:
+            rep.violation('R13e', main, fn, whate, 'the loop stops with %d entries still in the heap: if they are live they form an uncut cycle (a triangle for 3)' % bad,
+                          key='R13e|%s|stops-early' % fn.g)
+        else:
+            rep.ok('R13e', main, fn, whate, 'condition `%s` holds for heap sizes 3, 4, 7, 50' % main.cond.text(30))
+        # ---------------------------------------------------------------- R13f: no exit between the phases
+        nvars = set()
+        for d in m.nodes:
+            if d.k == 'VarDecl' and d.c:
+                r_ = d.c[0].strip_all()
+                if r_.k == 'CallExpr' and r_.callee and r_.callee['g'] == 'boost::num_vertices':
+                    nvars.add(d.decl_id)
+        for r in ex.returns_of(fn):
+            if main.is_ancestor_of(r):
+                continue
+            whatf = 'the function leaves before its emission loop only when no vertex can be left on a cycle'
+            conds = ex.ast_conditions(r)
+            if not conds:
+                continue
+            counter = None
+            for (c_, pol) in conds:
+                for leaf in [c_.strip_all()] + list(c_.walk()):
+                    if leaf.k == 'BinaryOperator' and leaf.op in ('==', '>=', '<=', '!=') and {ex.var_of(leaf.c[0]), ex.var_of(leaf.c[1])} & nvars:
+                        other = [x for x in (ex.var_of(leaf.c[0]), ex.var_of(leaf.c[1])) if x is not None and x not in nvars]
+                        if other:
+                            incs = [x for x in m.nodes if x.k in ('UnaryOperator', 'CompoundAssignOperator') and x.op in ('++', '+=') and ex.var_of(x.c[0]) == other[0]]
+                            lp_ = [x.enclosing(*LOOPS) for x in incs]
+                            pops_in = [lp for lp in lp_ if lp is not None and any(
+                                y.k == 'CXXMemberCallExpr' and y.callee and y.callee['name'] in ('pop_front', 'pop_back', 'pop') and ex.var_of(y.object_arg()) == m.queue
+                                for y in lp.walk())]
+                            if incs and pops_in:
+                                counter = other[0]
+            if counter is not None:
+                rep.violation('R13f', r, fn, whatf,
+                              'the early return compares `%s`, which counts pops of the discard queue, with the number of vertices; a vertex can be queued twice '
+                              '(when its live degree becomes 1 and again when it becomes 0), so the count reaches n while live vertices - a whole cycle - remain' % V[counter]['name'],
+                              key='R13f|%s|pop-counter' % fn.g)
+            else:
+                rep.undecided('R13f', r, fn, whatf, 'early return under `%s`: not in the idiom table' % conds[0][0].text(40))
     return nsib
 
 
 def run(rep, tier):
+    rep.rule('R13e', 'the emission loop does not stop while three or more heap entries remain', floor=1)
+    rep.rule('R13f', 'no early exit between the clean-up and the emission loop', floor=0)
     rep.rule('R13a', 'initialisation of liveness and live degree', floor=1)
     rep.rule('R13b', 'discard threshold: queued iff live degree <= 1', floor=4)
     rep.rule('R13c', 'neighbour updates after every removal (three sibling loops)', floor=6)
@@ -529,7 +614,7 @@ def run(rep, tier):
         prep = type(rep)(rep.prop, rep.tier)
         for fn in pp.fns(FN):
             check(prep, pp, fn)
-        for r in ('R13a', 'R13b', 'R13c', 'R13d'):
+        for r in ('R13a', 'R13b', 'R13c', 'R13d', 'R13e', 'R13f'):
             rep.positive(r, 'witness/positive/c13_fvs.cc', any(i.status == 'violation' and i.rule == r for i in prep.instances.values()))
     except env.AnalysisBroken as e:
         rep.analysis_broken('positive example c13_fvs.cc does not parse: ' + str(e)[:300])
